@@ -314,6 +314,11 @@ func (resp *Response) ResetBody() {
 //
 // From this point onward the body argument must not be changed.
 func (resp *Response) SetBodyRaw(body []byte) {
+	if resp.GetHijackWriter() != nil {
+		// (the writer that has taken the response over sends the body, as for SetBody)
+		resp.SetBody(body)
+		return
+	}
 	resp.ResetBody()
 	resp.bodyRaw = body
 }
